@@ -430,7 +430,8 @@ class Gen:
         return "%s := func(%s) %s" % (name, ", ".join(plist), body)
 
     # ---------------------------------------------------------------- programs
-    def program(self):
+    def program_parts(self):
+        """the program as a list of chunks, each made of whole top-level statements"""
         sc = Scope()
         lines = ["log := []", "func t(k, v) { log.append(k); return v }"]
         sc.vars['log'] = 'x'
@@ -442,7 +443,10 @@ class Gen:
             lines.append(self.stmt(sc, False, False, 0))
         finals = [v for v, k in sc.vars.items() if k in ('i', 'l', 's', 'm', 'c')]
         lines.append("[" + ", ".join(finals + ["log"]) + "]")
-        return "\n".join(lines)
+        return lines
+
+    def program(self):
+        return "\n".join(self.program_parts())
 
 
 def closure_program(rng, depth, escape):
